@@ -235,6 +235,19 @@ def run_candset(seed, n):
             L['alt_' + names[1]] = pd.Series(vals, index=L.index, dtype=object)
             R = L
             names = (names[0], names[1], names[0], 'alt_' + names[1])
+        elif rng.random() < 0.15:
+            # a table KEYED BY the column that is filtered (key attribute = filter attribute), on one
+            # side or both: the projection then holds the same column twice
+            def keyed(df, attr):
+                d2 = df[df[attr].notnull()].drop_duplicates(subset=[attr]).copy()
+                return d2
+            side = rng.choice(['l', 'r', 'both'])
+            if side in ('l', 'both'):
+                L = keyed(L, names[1])
+                names = (names[1], names[1], names[2], names[3])
+            if side in ('r', 'both'):
+                R = keyed(R, names[3])
+                names = (names[0], names[1], names[3], names[3])
         cand, cl, cr = gen_candset(rng, L, R, names)
         r_ = rng.random()
         if len(cand) and r_ < 0.45:
